@@ -59,6 +59,8 @@ struct Group {
   Vec log(const Mat& M, bool* ok = nullptr) const;     // principal log (rotation angle <= pi)
   Vec log_seeded(const Mat& M, const Vec& seed, bool* ok = nullptr) const;  // Newton on expm from a given seed (continuous branch)
   Mat inv(const Mat& M) const;          // LU
+  Mat inv_unscaled(const Mat& M) const;
+  Vec balance_scales(const Mat& A) const;  // power-of-two diagonal scales used by exp() and inv()
   Mat Adj(const Mat& M) const;          // columns vee(M G_j M^-1)
   Vec act(const Mat& M, const Vec& p) const;  // homogeneous action, per block
   Mat Jr(const Vec& t) const;           // sum (-ad)^k/(k+1)!
@@ -81,6 +83,7 @@ struct Group {
 };
 
 Mat expm(const Mat& A);
+Mat inverse_equilibrated(const Mat& J);  // inverse by power-of-two row/column equilibration + partial pivoting (no rank decision)
 Mat logm_series(const Mat& M);   // log of a matrix close to identity (or unipotent)
 Vec rotlog3(const Mat& R);       // principal rotation vector of a 3x3 rotation matrix
 Mat quat2rot(Real x, Real y, Real z, Real w);
